@@ -160,6 +160,15 @@ def _check_world(w, r, violations, keys, tag, use_cache=False, create_cache=None
                                             {"group": grp, "error": exc_text(e), "rpc": r,
                                              "shape": [n, p]}))
                 continue
+            # an unsorted row list that leaves a chunk and comes back to it
+            if n >= 3:
+                order = [n - 1, 0, n // 2, n - 1 if n < 4 else 1]
+                try:
+                    held.append((order, da.isel(rows=order).values))
+                except Exception as e:  # noqa: BLE001
+                    violations.append(Violation(ID, "load-raised", "rowlist:" + type(e).__name__,
+                                                {"group": grp, "error": exc_text(e), "rpc": r}))
+                    continue
             for ix, vals_b in held:
                 want = truth[ix]
                 bits = bits_of(vals_b, prod.level)
